@@ -45,6 +45,8 @@ fn eval_inner(req: &str) -> Case {
         "rcmp3" => crate::pure::eval_rcmp3(req, f[1], f[2], f[3]),
         "term2" => crate::pure::eval_term2(req, f[1], f[2]),
         "bset2" => crate::vset::eval_bset2(req, f[1].parse().unwrap(), f[2].parse().unwrap()),
+        "report" => crate::report::eval_report(f[1], f[2]),
+        "collapse" => crate::report::eval_collapse(f[1], f[2], f[3], f[4].parse().unwrap()),
         "solve" => {
             let prop = CURRENT_PROP.with(|p| p.borrow().clone());
             if f[1] == "bits" {
